@@ -102,10 +102,11 @@ type seqRun struct {
 	g       *gen
 	onOK    func(ri rootInfo) // called when a commit reported success (before it is judged)
 
-	committed []rootInfo
-	attempted []common.Hash // every root a TrieDB commit was attempted for
-	ranges    [][2]int      // per TrieDB commit: [first unit index, end)
-	commitNo  int
+	committed   []rootInfo
+	attempted   []common.Hash // every root a TrieDB commit was attempted for
+	ranges      [][2]int      // per TrieDB commit: [first unit index, end)
+	commitNo    int
+	destructive int // write units that removed or changed an existing key
 
 	// "verified complete in the replica" memos; valid while the replica only grows
 	stateDone, storDone, codeDone          map[common.Hash]bool
@@ -369,6 +370,9 @@ func (d *durCtx) mismatch(kind, what string, coldV, refV []byte, warmV func() []
 	}
 	if warmOK && bytes.Equal(wv, norm(coldV)) {
 		d.s.r.Count("model_divergence", 1)
+		if d.s.r.Get("model_divergence") > 8 {
+			return
+		}
 		d.s.r.Inconclusive("reference model and root %s disagree on %s (%s): root has %x, reference %x; cold and warm reads agree, so this is not a durability failure [variant=%s seq=%d commit=%d]",
 			d.ri.Root.Hex(), kind, what, trunc(coldV), trunc(refV), d.s.variant, d.s.idx, d.w.Commit)
 		return
@@ -628,18 +632,20 @@ func planSequence(rng *rand.Rand) []blockSpec {
 		}
 		m := rng.Intn(100)
 		switch {
-		case m < 78:
+		case m < 74:
 			specs[i].Mode = "normal"
-		case m < 86:
+		case m < 80:
 			specs[i].Mode = "fail-retry"
-		case m < 91:
+		case m < 88:
+			specs[i].Mode = "fail-retry-same"
+		case m < 92:
 			specs[i].Mode = "fail-abandon"
-		case m < 96:
+		case m < 97:
 			specs[i].Mode = "orphan-replay"
 		default:
 			specs[i].Mode = "orphan-abandon"
 		}
-		specs[i].FailAt = 1 + rng.Intn(4)
+		specs[i].FailAt = []int{1, 1, 1, 2, 2, 3, 4, 5}[rng.Intn(8)]
 	}
 	// at least one commit that is split over several batches
 	specs[rng.Intn(n)].Kind = "big"
@@ -666,6 +672,7 @@ func runSequence(r *mon.Run, variant string, idx int, inner db.Database, onOK fu
 		ref := newRefState()
 		ref.Accts[holderAddr] = &refAcct{Nonce: 1, Code: holderCode, HasCode: true, Storage: map[string][]byte{}}
 		s.g.everAddr[holderAddr] = struct{}{}
+		s.g.protected[holderAddr] = true
 		ops := []Op{{K: "bind", Addr: holderAddr}, {K: "create", Addr: holderAddr, N: 1}, {K: "code", Addr: holderAddr, Val: holderCode}}
 		s.commitBlock(common.Hash{}, ops, ref, "genesis", "normal", 0)
 	}
@@ -691,9 +698,22 @@ func runSequence(r *mon.Run, variant string, idx int, inner db.Database, onOK fu
 		s.commitBlock(parentRoot, ops, post, spec.Kind, spec.Mode, spec.FailAt)
 	}
 
-	// older roots are never invalidated: every committed root, full accessor check
-	for _, ri := range s.committed {
-		s.checkDurable(ri, "end of sequence")
+	// older roots are never invalidated. Every committed root was kept under the
+	// walk check at every later crash point; the full accessor check is repeated
+	// at the end for all roots if any write unit removed or changed a key, else
+	// (the store only grew, so no read of an old root can have changed) for the
+	// oldest root and one seeded pick.
+	if n := len(s.committed); n > 0 {
+		if s.destructive > 0 {
+			for _, ri := range s.committed {
+				s.checkDurable(ri, "end of sequence")
+			}
+		} else {
+			s.checkDurable(s.committed[0], "end of sequence")
+			if n > 2 {
+				s.checkDurable(s.committed[1+s.rng.Intn(n-2)], "end of sequence")
+			}
+		}
 	}
 	r.Count("direct_puts", int64(s.rec.directPuts))
 	r.Count("direct_deletes", int64(s.rec.directDels))
@@ -704,15 +724,24 @@ func runSequence(r *mon.Run, variant string, idx int, inner db.Database, onOK fu
 // commitBlock executes one block on parentRoot and judges its commit(s).
 func (s *seqRun) commitBlock(parentRoot common.Hash, ops []Op, post *refState, kind, mode string, failAt int) {
 	r := s.r
-	attempt := func(doTrieCommit bool, inject int) (root common.Hash, ok bool) {
+	// attempt executes the block (or, with reuse != nil, commits the same
+	// AccountDB object again — what happens when a block whose state object is
+	// still cached is re-added after a failed store write) and judges the commit.
+	var lastAdb *account.AccountDB
+	attempt := func(doTrieCommit bool, inject int, reuse *account.AccountDB) (root common.Hash, ok bool) {
 		s.commitNo++
 		cn := s.commitNo
-		adb, err := account.NewAccountDB(parentRoot, s.sdb)
-		if err != nil {
-			r.Violation("C03:live:parent-not-openable", fmt.Sprintf("committed root %s cannot be opened in the live process: %v", parentRoot.Hex(), err), s.wit(Witness{Commit: cn, Root: parentRoot.Hex()}))
-			return common.Hash{}, false
+		adb := reuse
+		var err error
+		if adb == nil {
+			adb, err = account.NewAccountDB(parentRoot, s.sdb)
+			if err != nil {
+				r.Violation("C03:live:parent-not-openable", fmt.Sprintf("committed root %s cannot be opened in the live process: %v", parentRoot.Hex(), err), s.wit(Witness{Commit: cn, Root: parentRoot.Hex()}))
+				return common.Hash{}, false
+			}
+			applyOps(r, adb, ops)
 		}
-		applyOps(r, adb, ops)
+		lastAdb = adb
 		u0 := s.rec.unitCount()
 		root, err = adb.Commit(true)
 		r.Count("account_commits", 1)
@@ -767,6 +796,7 @@ func (s *seqRun) commitBlock(parentRoot common.Hash, ops []Op, post *refState, k
 		for p := 1; p <= len(units); p++ {
 			if applyUnit(s.replica, units[p-1]) {
 				r.Count("destructive_units", 1)
+				s.destructive++
 				s.resetMemos()
 			}
 			s.judgePrefix(cands, durable, Witness{Commit: cn, Prefix: p, Units: len(units)})
@@ -798,18 +828,22 @@ func (s *seqRun) commitBlock(parentRoot common.Hash, ops []Op, post *refState, k
 
 	switch mode {
 	case "normal":
-		attempt(true, 0)
-	case "fail-retry", "fail-abandon":
-		_, ok := attempt(true, failAt)
+		attempt(true, 0, nil)
+	case "fail-retry", "fail-retry-same", "fail-abandon":
+		_, ok := attempt(true, failAt, nil)
 		if !ok && mode == "fail-retry" {
 			r.Count("retried_commits", 1)
-			attempt(true, 0)
+			attempt(true, 0, nil)
+		}
+		if !ok && mode == "fail-retry-same" && lastAdb != nil {
+			r.Count("retried_commits_same_state_object", 1)
+			attempt(true, 0, lastAdb)
 		}
 	case "orphan-replay":
-		attempt(false, 0)
-		attempt(true, 0)
+		attempt(false, 0, nil)
+		attempt(true, 0, nil)
 	case "orphan-abandon":
-		attempt(false, 0)
+		attempt(false, 0, nil)
 	}
 }
 
@@ -933,14 +967,19 @@ func main() {
 		done <- r.RunChild(mon.ChildSpec{Label: "unbound", Args: []string{"unbound", "0", fmt.Sprint(nUnbound)}, Timeout: time.Duration(r.Pick(120, 1800)) * time.Second})
 	}()
 
+	t0 := time.Now()
 	mon.Parallel(nBound, workers, func(i int) {
 		w := Witness{Variant: "bound", Seq: i}
 		r.Guard("C03:sequence", w, func() { runSequence(r, "bound", i, nil, nil) })
 	})
+	r.Note("phase bound sequences: %.1fs", time.Since(t0).Seconds())
 	res := <-done
 	r.Absorb(res, "C03:unbound")
+	r.Note("phase unbound child done at %.1fs (child wall %.1fs)", time.Since(t0).Seconds(), res.Wall.Seconds())
 
+	t1 := time.Now()
 	ldbCampaign(r)
+	r.Note("phase real-LevelDB campaign: %.1fs", time.Since(t1).Seconds())
 
 	r.Sample(Witness{Variant: "bound", Seq: 0})
 	r.Sample(Witness{Variant: "bound", Seq: nBound - 1})
